@@ -32,6 +32,7 @@ type msgMatcher struct {
 	cfgName string
 	heap    func(h map[string]SV) // provisioned configuration
 	local   string                // "tcp" / "udp": the dynamic type of the connection's local address ("" = unknown)
+	cfg     func(h map[string]SV) // the configuration as written (exported fields): Provision is evaluated on it and Match runs in the state it leaves; heap is then only the fallback where Provision cannot be evaluated
 	cases   []msgCase
 	source  string
 }
@@ -120,7 +121,11 @@ func msgScenario(c *Ctx, mm msgMatcher, mc msgCase) *Scenario {
 		Params: map[string]SV{"recv": symRef("m", false), "p0": symRef("cx", false)},
 		Heap:   map[string]SV{"msg.pos": symInt(0)},
 	}
-	if mm.heap != nil {
+	if st := provisionedState(c, mm); st != nil {
+		for k, v := range st {
+			sc.Heap[k] = v
+		}
+	} else if mm.heap != nil {
 		msgCtx = c
 		mm.heap(sc.Heap)
 	}
@@ -678,6 +683,56 @@ func winboxCfg(std, romon bool, user, re string) func(h map[string]SV) {
 	}
 }
 
+// configurations as written (exported fields): Provision is evaluated on them
+func strListSV(h map[string]SV, desc string, xs []string) SV {
+	for i, x := range xs {
+		h[fmt.Sprintf("%s[%d]", desc, i)] = symStr(x)
+	}
+	l := symInt(int64(len(xs)))
+	if len(xs) == 0 {
+		return SV{K: "slice", Desc: desc, Len: &l, Cap: &l, Known: true, Nil: true}
+	}
+	return SV{K: "slice", Desc: desc, Len: &l, Cap: &l, Known: true}
+}
+
+func winboxJSON(modes []string, user, re string) func(h map[string]SV) {
+	return func(h map[string]SV) {
+		h["m.Modes"] = strListSV(h, "cfgmodes", modes)
+		h["m.Username"], h["m.UsernameRegexp"] = symStr(user), symStr(re)
+	}
+}
+
+func rdpJSON(hash, hashRe, info, infoRe string, ports ...int64) func(h map[string]SV) {
+	return func(h map[string]SV) {
+		h["m.CookieHash"], h["m.CookieHashRegexp"] = symStr(hash), symStr(hashRe)
+		h["m.CustomInfo"], h["m.CustomInfoRegexp"] = symStr(info), symStr(infoRe)
+		if len(ports) > 0 {
+			h["m.CookiePorts"] = symSlice("m.CookiePorts", int64(len(ports)))
+			for i, p := range ports {
+				h[fmt.Sprintf("m.CookiePorts[%d]", i)] = symInt(p)
+			}
+		}
+	}
+}
+
+func ovpnJSON(modes string, ignoreTS bool) func(h map[string]SV) {
+	return func(h map[string]SV) {
+		h["m.Modes"] = strListSV(h, "cfgmodes", strings.Split(modes, ","))
+		h["m.IgnoreTimestamp"] = symBool(ignoreTS)
+		if sizes := digestSizes(msgCtx); sizes != nil {
+			key := "global:modules/l4openvpn.AuthDigestSizes"
+			h[key] = symSlice(key, int64(len(sizes)))
+			for i, v := range sizes {
+				h[fmt.Sprintf("%s[%d]", key, i)] = symInt(v)
+			}
+		}
+	}
+}
+
+func regexpJSON(pattern string, count int64) func(h map[string]SV) {
+	return func(h map[string]SV) { h["m.Pattern"], h["m.Count"] = symStr(pattern), symInt(count) }
+}
+
 func pgMsg(code uint32, body []byte) []byte {
 	l := uint32(8 + len(body))
 	out := []byte{byte(l >> 24), byte(l >> 16), byte(l >> 8), byte(l), byte(code >> 24), byte(code >> 16), byte(code >> 8), byte(code)}
@@ -773,6 +828,19 @@ func ovpnCrypt(sid []byte, rpid, ts uint32, total int) []byte {
 	return out
 }
 
+// ovpnCrypt2: a tls-crypt-v2 client reset without the opcode byte: the tls-crypt part (53 bytes) and a wrapped
+// client key of wk bytes whose last two bytes state its length (declared = -1: the true length).
+func ovpnCrypt2(sid []byte, rpid uint32, wk int, declared int) []byte {
+	out := ovpnCrypt(sid, rpid, 0, 53)
+	for i := 0; i < wk-2; i++ {
+		out = append(out, byte(0x30+i%10))
+	}
+	if declared < 0 {
+		declared = wk
+	}
+	return cat(out, be16(declared))
+}
+
 // ovpnUDP / ovpnTCP: a datagram, and the same message behind its two length bytes (declared = -1: the true length).
 func ovpnUDP(op byte, body []byte) []byte { return cat([]byte{op}, body) }
 func ovpnTCP(op byte, body []byte, declared int) []byte {
@@ -793,7 +861,7 @@ func regexpCfg(pattern string, count int64) func(h map[string]SV) {
 
 var msgMatchers = []msgMatcher{
 	{
-		fn: "modules/l4openvpn.(*MatchOpenVPN).Match", cfgName: "openvpn plain udp", heap: ovpnCfg("plain", true, 0), local: "udp",
+		fn: "modules/l4openvpn.(*MatchOpenVPN).Match", cfgName: "openvpn plain udp", heap: ovpnCfg("plain", true, 0), cfg: ovpnJSON("plain", true), local: "udp",
 		cases: []msgCase{
 			{"hard reset v2", ovpnUDP(ovpnV2, ovpnPlain(ovpnSID, 0, 0)), "yes"},
 			{"session id of one bit", ovpnUDP(ovpnV2, ovpnPlain([]byte{0, 0, 0, 0, 0, 0, 0, 1}, 0, 0)), "yes"},
@@ -816,7 +884,7 @@ var msgMatchers = []msgMatcher{
 		source: "OpenVPN P_CONTROL_HARD_RESET_CLIENT_V2 without tls-auth: opcode 7, key id 0, 8-byte non-zero session id, no acks, packet id 0 (14 bytes)",
 	},
 	{
-		fn: "modules/l4openvpn.(*MatchOpenVPN).Match", cfgName: "openvpn plain tcp", heap: ovpnCfg("plain", true, 0), local: "tcp",
+		fn: "modules/l4openvpn.(*MatchOpenVPN).Match", cfgName: "openvpn plain tcp", heap: ovpnCfg("plain", true, 0), cfg: ovpnJSON("plain", true), local: "tcp",
 		cases: []msgCase{
 			{"hard reset v2", ovpnTCP(ovpnV2, ovpnPlain(ovpnSID, 0, 0), -1), "yes"},
 			{"zero session id", ovpnTCP(ovpnV2, ovpnPlain(make([]byte, 8), 0, 0), -1), "no"},
@@ -837,7 +905,7 @@ var msgMatchers = []msgMatcher{
 		source: "the same message behind a 16-bit length (TCP framing); a byte beyond the declared length means another protocol",
 	},
 	{
-		fn: "modules/l4openvpn.(*MatchOpenVPN).Match", cfgName: "openvpn auth udp", heap: ovpnCfg("auth", true, 0), local: "udp",
+		fn: "modules/l4openvpn.(*MatchOpenVPN).Match", cfgName: "openvpn auth udp", heap: ovpnCfg("auth", true, 0), cfg: ovpnJSON("auth", true), local: "udp",
 		cases: []msgCase{
 			{"sha1 hmac", ovpnUDP(ovpnV2, ovpnAuth(ovpnSID, 20, 1, 0, 0, 0)), "yes"},
 			{"md5 hmac (shortest)", ovpnUDP(ovpnV2, ovpnAuth(ovpnSID, 16, 1, 0, 0, 0)), "yes"},
@@ -860,7 +928,7 @@ var msgMatchers = []msgMatcher{
 		source: "hard reset v2 with tls-auth: session id, HMAC of a supported digest size, replay packet id 1, timestamp, no acks, packet id 0",
 	},
 	{
-		fn: "modules/l4openvpn.(*MatchOpenVPN).Match", cfgName: "openvpn auth tcp", heap: ovpnCfg("auth", true, 0), local: "tcp",
+		fn: "modules/l4openvpn.(*MatchOpenVPN).Match", cfgName: "openvpn auth tcp", heap: ovpnCfg("auth", true, 0), cfg: ovpnJSON("auth", true), local: "tcp",
 		cases: []msgCase{
 			{"sha1 hmac", ovpnTCP(ovpnV2, ovpnAuth(ovpnSID, 20, 1, 0, 0, 0), -1), "yes"},
 			{"sha512 hmac (longest)", ovpnTCP(ovpnV2, ovpnAuth(ovpnSID, 64, 1, 0, 0, 0), -1), "yes"},
@@ -882,7 +950,7 @@ var msgMatchers = []msgMatcher{
 		source: "auth_digest configured: the HMAC must have that digest's size",
 	},
 	{
-		fn: "modules/l4openvpn.(*MatchOpenVPN).Match", cfgName: "openvpn crypt udp", heap: ovpnCfg("crypt", true, 0), local: "udp",
+		fn: "modules/l4openvpn.(*MatchOpenVPN).Match", cfgName: "openvpn crypt udp", heap: ovpnCfg("crypt", true, 0), cfg: ovpnJSON("crypt", true), local: "udp",
 		cases: []msgCase{
 			{"tls-crypt hard reset", ovpnUDP(ovpnV2, ovpnCrypt(ovpnSID, 1, 0, 53)), "yes"},
 			{"replay packet id 0", ovpnUDP(ovpnV2, ovpnCrypt(ovpnSID, 0, 0, 53)), "no"},
@@ -897,7 +965,7 @@ var msgMatchers = []msgMatcher{
 		source: "hard reset v2 with tls-crypt: session id, replay packet id 1, timestamp, 32-byte HMAC, 5 encrypted bytes (54 bytes)",
 	},
 	{
-		fn: "modules/l4openvpn.(*MatchOpenVPN).Match", cfgName: "openvpn crypt tcp", heap: ovpnCfg("crypt", true, 0), local: "tcp",
+		fn: "modules/l4openvpn.(*MatchOpenVPN).Match", cfgName: "openvpn crypt tcp", heap: ovpnCfg("crypt", true, 0), cfg: ovpnJSON("crypt", true), local: "tcp",
 		cases: []msgCase{
 			{"tls-crypt hard reset", ovpnTCP(ovpnV2, ovpnCrypt(ovpnSID, 1, 0, 53), -1), "yes"},
 			{"replay packet id 2", ovpnTCP(ovpnV2, ovpnCrypt(ovpnSID, 2, 0, 53), -1), "no"},
@@ -907,7 +975,7 @@ var msgMatchers = []msgMatcher{
 		source: "the same behind the TCP length",
 	},
 	{
-		fn: "modules/l4openvpn.(*MatchOpenVPN).Match", cfgName: "openvpn plain+auth+crypt udp", heap: ovpnCfg("plain,auth,crypt", true, 0), local: "udp",
+		fn: "modules/l4openvpn.(*MatchOpenVPN).Match", cfgName: "openvpn plain+auth+crypt udp", heap: ovpnCfg("plain,auth,crypt", true, 0), cfg: ovpnJSON("plain,auth,crypt", true), local: "udp",
 		cases: []msgCase{
 			{"plain", ovpnUDP(ovpnV2, ovpnPlain(ovpnSID, 0, 0)), "yes"},
 			{"auth sha1", ovpnUDP(ovpnV2, ovpnAuth(ovpnSID, 20, 1, 0, 0, 0)), "yes"},
@@ -918,17 +986,43 @@ var msgMatchers = []msgMatcher{
 		source: "all three v2 modes accepted: each message is taken by its own mode",
 	},
 	{
-		fn: "modules/l4openvpn.(*MatchOpenVPN).Match", cfgName: "openvpn crypt2 udp", heap: ovpnCfg("crypt2", true, 0), local: "udp",
+		fn: "modules/l4openvpn.(*MatchOpenVPN).Match", cfgName: "openvpn crypt2 tcp", heap: ovpnCfg("crypt2", true, 0), cfg: ovpnJSON("crypt2", true), local: "tcp",
+		cases: []msgCase{
+			{"smallest wrapped key", ovpnTCP(ovpnV3, ovpnCrypt2(ovpnSID, 1, 290, -1), -1), "yes"},
+			{"largest wrapped key", ovpnTCP(ovpnV3, ovpnCrypt2(ovpnSID, 1, 1024, -1), -1), "yes"},
+			{"declared length one below the minimum", ovpnTCP(ovpnV3, ovpnCrypt2(ovpnSID, 1, 289, -1), -1), "no"},
+			{"declared length above the maximum", cat(be16(1079), []byte{ovpnV3}, ovpnCrypt2(ovpnSID, 1, 1024, -1)), "no"},
+			{"one byte follows", ovpnTCP(ovpnV3, cat(ovpnCrypt2(ovpnSID, 1, 290, -1), []byte{0}), 344), "no"},
+			{"one byte missing", ovpnTCP(ovpnV3, ovpnCrypt2(ovpnSID, 1, 290, -1), -1)[:345], "more"},
+			{"replay packet id 2", ovpnTCP(ovpnV3, ovpnCrypt2(ovpnSID, 2, 290, -1), -1), "no"},
+			{"hard reset v2 with a crypt2-sized body", ovpnTCP(ovpnV2, ovpnCrypt2(ovpnSID, 1, 290, -1), -1), "no"},
+		},
+		source: "tls-crypt-v2 over TCP: the frame length lies between the smallest and the largest reset",
+	},
+	{
+		fn: "modules/l4openvpn.(*MatchOpenVPN).Match", cfgName: "openvpn crypt2 udp", heap: ovpnCfg("crypt2", true, 0), cfg: ovpnJSON("crypt2", true), local: "udp",
 		cases: []msgCase{
 			{"hard reset v2 plain", ovpnUDP(ovpnV2, ovpnPlain(ovpnSID, 0, 0)), "no"},
 			{"hard reset v2 crypt", ovpnUDP(ovpnV2, ovpnCrypt(ovpnSID, 1, 0, 53)), "no"},
 			{"hard reset v3, 53 bytes (below the minimum)", ovpnUDP(ovpnV3, ovpnCrypt(ovpnSID, 1, 0, 53)), "no"},
 			{"hard reset v3, 342 bytes (one below the minimum)", ovpnUDP(ovpnV3, ovpnCrypt(ovpnSID, 1, 0, 342)), "no"},
+			{"smallest wrapped key (290 bytes)", ovpnUDP(ovpnV3, ovpnCrypt2(ovpnSID, 1, 290, -1)), "yes"},
+			{"wrapped key of 291 bytes", ovpnUDP(ovpnV3, ovpnCrypt2(ovpnSID, 1, 291, -1)), "yes"},
+			{"largest wrapped key (1024 bytes)", ovpnUDP(ovpnV3, ovpnCrypt2(ovpnSID, 1, 1024, -1)), "yes"},
+			{"wrapped key of 1025 bytes", ovpnUDP(ovpnV3, ovpnCrypt2(ovpnSID, 1, 1025, -1)), "no"},
+			{"wrapped key of 289 bytes", ovpnUDP(ovpnV3, ovpnCrypt2(ovpnSID, 1, 289, -1)), "no"},
+			{"early negotiation packet id 0x0f000001", ovpnUDP(ovpnV3, ovpnCrypt2(ovpnSID, 0x0f000001, 290, -1)), "yes"},
+			{"replay packet id 2", ovpnUDP(ovpnV3, ovpnCrypt2(ovpnSID, 2, 290, -1)), "no"},
+			{"replay packet id 0", ovpnUDP(ovpnV3, ovpnCrypt2(ovpnSID, 0, 290, -1)), "no"},
+			{"zero session id", ovpnUDP(ovpnV3, ovpnCrypt2(make([]byte, 8), 1, 290, -1)), "no"},
+			{"wrapped key states one byte more", ovpnUDP(ovpnV3, ovpnCrypt2(ovpnSID, 1, 290, 291)), "no"},
+			{"wrapped key states one byte less", ovpnUDP(ovpnV3, ovpnCrypt2(ovpnSID, 1, 290, 289)), "no"},
+			{"key id 1", ovpnUDP(ovpnV3|1, ovpnCrypt2(ovpnSID, 1, 290, -1)), "no"},
 		},
 		source: "only tls-crypt-v2 accepted: v2 resets and too short v3 resets are refused",
 	},
 	{
-		fn: "modules/l4regexp.(*MatchRegexp).Match", cfgName: "regexp ^GET count=4", heap: regexpCfg("^GET ", 4),
+		fn: "modules/l4regexp.(*MatchRegexp).Match", cfgName: "regexp ^GET count=4", heap: regexpCfg("^GET ", 4), cfg: regexpJSON("^GET ", 4),
 		cases: []msgCase{
 			{"exactly the four bytes", []byte("GET "), "yes"},
 			{"more than count bytes", []byte("GET / HTTP/1.1\r\n"), "yes"},
@@ -940,7 +1034,7 @@ var msgMatchers = []msgMatcher{
 		source: "the regexp matcher reads exactly count bytes and applies the expression to them",
 	},
 	{
-		fn: "modules/l4regexp.(*MatchRegexp).Match", cfgName: "regexp ab$ count=3", heap: regexpCfg("ab$", 3),
+		fn: "modules/l4regexp.(*MatchRegexp).Match", cfgName: "regexp ab$ count=3", heap: regexpCfg("ab$", 3), cfg: regexpJSON("ab$", 3),
 		cases: []msgCase{
 			{"suffix within count", []byte("xab"), "yes"},
 			{"suffix within count, more follows", []byte("xabab"), "yes"},
@@ -950,7 +1044,7 @@ var msgMatchers = []msgMatcher{
 		source: "only the first count bytes are looked at",
 	},
 	{
-		fn: "modules/l4regexp.(*MatchRegexp).Match", cfgName: "regexp . count=1", heap: regexpCfg(".", 1),
+		fn: "modules/l4regexp.(*MatchRegexp).Match", cfgName: "regexp . count=1", heap: regexpCfg(".", 1), cfg: regexpJSON(".", 1),
 		cases: []msgCase{
 			{"one byte", []byte("a"), "yes"},
 			{"line feed", []byte("\n"), "no"},
@@ -959,7 +1053,7 @@ var msgMatchers = []msgMatcher{
 		source: "count = 1",
 	},
 	{
-		fn: "modules/l4rdp.(*MatchRDP).Match", cfgName: "rdp no filters", heap: rdpCfg("", "", "", ""),
+		fn: "modules/l4rdp.(*MatchRDP).Match", cfgName: "rdp no filters", heap: rdpCfg("", "", "", ""), cfg: rdpJSON("", "", "", ""),
 		cases: []msgCase{
 			{"negotiation request only", rdpCR(rdpHdr{}, rdpNeg), "yes"},
 			{"cookie and negotiation request", rdpCR(rdpHdr{}, cat(rdpCookie, rdpNeg)), "yes"},
@@ -1005,7 +1099,7 @@ var msgMatchers = []msgMatcher{
 		source: "MS-RDPBCGR 2.2.1.1 Client X.224 Connection Request PDU: TPKT (version 3, reserved 0, length), X.224 CR (LI = length-5, code 0xE0, DST-REF 0, SRC-REF 0, class 0), optional routing token or cookie ending in CR LF, optional rdpNegReq (type 1, flags within 0x0B, length 8, protocols within 0x1F, HYBRID requires SSL, HYBRID_EX requires HYBRID), optional rdpCorrelationInfo (type 6, flags 0, length 36, identity not starting with 0x00/0xF4 and without 0x0D, reserved zero) only with the CORRELATION_INFO flag; nothing after the request",
 	},
 	{
-		fn: "modules/l4rdp.(*MatchRDP).Match", cfgName: "rdp cookie_port=3389", heap: rdpCfgPorts(3389),
+		fn: "modules/l4rdp.(*MatchRDP).Match", cfgName: "rdp cookie_port=3389", heap: rdpCfgPorts(3389), cfg: rdpJSON("", "", "", "", 3389),
 		cases: []msgCase{
 			{"token for 172.168.249.216:3389", rdpCR(rdpHdr{}, cat(rdpToken("Cookie: msts=3640205228.15629.0000", 0, 0, 0), rdpNeg)), "yes"},
 			{"token only", rdpCR(rdpHdr{}, rdpToken("Cookie: msts=3640205228.15629.0000", 0, 0, 0)), "yes"},
@@ -1025,7 +1119,7 @@ var msgMatchers = []msgMatcher{
 		source: "cookie_port filter: the routing token 'Cookie: msts=<ip>.<port>.0000' (ip and port as decimal numbers of their byte-swapped binary form) names one of the configured ports",
 	},
 	{
-		fn: "modules/l4rdp.(*MatchRDP).Match", cfgName: "rdp cookie_port=3389,3390", heap: rdpCfgPorts(3389, 3390),
+		fn: "modules/l4rdp.(*MatchRDP).Match", cfgName: "rdp cookie_port=3389,3390", heap: rdpCfgPorts(3389, 3390), cfg: rdpJSON("", "", "", "", 3389, 3390),
 		cases: []msgCase{
 			{"token for port 3390", rdpCR(rdpHdr{}, cat(rdpToken("Cookie: msts=3640205228.15885.0000", 0, 0, 0), rdpNeg)), "yes"},
 			{"token for port 3391", rdpCR(rdpHdr{}, cat(rdpToken("Cookie: msts=3640205228.16141.0000", 0, 0, 0), rdpNeg)), "no"},
@@ -1033,7 +1127,7 @@ var msgMatchers = []msgMatcher{
 		source: "cookie_port filter with two ports",
 	},
 	{
-		fn: "modules/l4rdp.(*MatchRDP).Match", cfgName: "rdp cookie_hash=user", heap: rdpCfg("user", "", "", ""),
+		fn: "modules/l4rdp.(*MatchRDP).Match", cfgName: "rdp cookie_hash=user", heap: rdpCfg("user", "", "", ""), cfg: rdpJSON("user", "", "", ""),
 		cases: []msgCase{
 			{"cookie of user", rdpCR(rdpHdr{}, cat(rdpCookie, rdpNeg)), "yes"},
 			{"cookie of other", rdpCR(rdpHdr{}, cat(rdpCookie2, rdpNeg)), "no"},
@@ -1043,7 +1137,7 @@ var msgMatchers = []msgMatcher{
 		source: "cookie_hash filter: the mstshash cookie equals the configured value",
 	},
 	{
-		fn: "modules/l4rdp.(*MatchRDP).Match", cfgName: "rdp cookie_hash=u", heap: rdpCfg("u", "", "", ""),
+		fn: "modules/l4rdp.(*MatchRDP).Match", cfgName: "rdp cookie_hash=u", heap: rdpCfg("u", "", "", ""), cfg: rdpJSON("u", "", "", ""),
 		cases: []msgCase{
 			{"cookie of user", rdpCR(rdpHdr{}, cat(rdpCookie, rdpNeg)), "no"},
 			{"cookie of u", rdpCR(rdpHdr{}, cat([]byte("Cookie: mstshash=u\r\n"), rdpNeg)), "yes"},
@@ -1051,7 +1145,7 @@ var msgMatchers = []msgMatcher{
 		source: "cookie_hash filter with a one-letter value",
 	},
 	{
-		fn: "modules/l4rdp.(*MatchRDP).Match", cfgName: "rdp cookie_hash_regexp=^us", heap: rdpCfg("", "^us", "", ""),
+		fn: "modules/l4rdp.(*MatchRDP).Match", cfgName: "rdp cookie_hash_regexp=^us", heap: rdpCfg("", "^us", "", ""), cfg: rdpJSON("", "^us", "", ""),
 		cases: []msgCase{
 			{"cookie of user", rdpCR(rdpHdr{}, cat(rdpCookie, rdpNeg)), "yes"},
 			{"cookie of other", rdpCR(rdpHdr{}, cat(rdpCookie2, rdpNeg)), "no"},
@@ -1060,7 +1154,7 @@ var msgMatchers = []msgMatcher{
 		source: "cookie_hash_regexp filter",
 	},
 	{
-		fn: "modules/l4rdp.(*MatchRDP).Match", cfgName: "rdp custom_info", heap: rdpCfg("", "", "tsv://MS Terminal Services Plugin.1.Farm", ""),
+		fn: "modules/l4rdp.(*MatchRDP).Match", cfgName: "rdp custom_info", heap: rdpCfg("", "", "tsv://MS Terminal Services Plugin.1.Farm", ""), cfg: rdpJSON("", "", "tsv://MS Terminal Services Plugin.1.Farm", ""),
 		cases: []msgCase{
 			{"that custom info", rdpCR(rdpHdr{}, cat(rdpCustom, rdpNeg)), "yes"},
 			{"another custom info", rdpCR(rdpHdr{}, cat([]byte("tsv://MS Terminal Services Plugin.1.Other\r\n"), rdpNeg)), "no"},
@@ -1070,7 +1164,7 @@ var msgMatchers = []msgMatcher{
 		source: "custom_info filter: the routing info before CR LF equals the configured value",
 	},
 	{
-		fn: "modules/l4rdp.(*MatchRDP).Match", cfgName: "rdp custom_info=x", heap: rdpCfg("", "", "x", ""),
+		fn: "modules/l4rdp.(*MatchRDP).Match", cfgName: "rdp custom_info=x", heap: rdpCfg("", "", "x", ""), cfg: rdpJSON("", "", "x", ""),
 		cases: []msgCase{
 			{"custom info x", rdpCR(rdpHdr{}, cat([]byte("x\r\n"), rdpNeg)), "yes"},
 			{"custom info y", rdpCR(rdpHdr{}, cat([]byte("y\r\n"), rdpNeg)), "no"},
@@ -1079,7 +1173,7 @@ var msgMatchers = []msgMatcher{
 		source: "custom_info filter with a one-letter value",
 	},
 	{
-		fn: "modules/l4rdp.(*MatchRDP).Match", cfgName: "rdp custom_info_regexp=x", heap: rdpCfg("", "", "", "x"),
+		fn: "modules/l4rdp.(*MatchRDP).Match", cfgName: "rdp custom_info_regexp=x", heap: rdpCfg("", "", "", "x"), cfg: rdpJSON("", "", "", "x"),
 		cases: []msgCase{
 			{"custom info containing x", rdpCR(rdpHdr{}, cat([]byte("axb\r\n"), rdpNeg)), "yes"},
 			{"custom info without x", rdpCR(rdpHdr{}, cat([]byte("abc\r\n"), rdpNeg)), "no"},
@@ -1088,7 +1182,7 @@ var msgMatchers = []msgMatcher{
 		source: "custom_info_regexp filter with a one-letter expression",
 	},
 	{
-		fn: "modules/l4rdp.(*MatchRDP).Match", cfgName: "rdp cookie_hash_regexp=u", heap: rdpCfg("", "u", "", ""),
+		fn: "modules/l4rdp.(*MatchRDP).Match", cfgName: "rdp cookie_hash_regexp=u", heap: rdpCfg("", "u", "", ""), cfg: rdpJSON("", "u", "", ""),
 		cases: []msgCase{
 			{"cookie of user", rdpCR(rdpHdr{}, cat(rdpCookie, rdpNeg)), "yes"},
 			{"cookie of other", rdpCR(rdpHdr{}, cat(rdpCookie2, rdpNeg)), "no"},
@@ -1097,7 +1191,7 @@ var msgMatchers = []msgMatcher{
 		source: "cookie_hash_regexp filter with a one-letter expression",
 	},
 	{
-		fn: "modules/l4rdp.(*MatchRDP).Match", cfgName: "rdp custom_info_regexp=Farm$", heap: rdpCfg("", "", "", "Farm$"),
+		fn: "modules/l4rdp.(*MatchRDP).Match", cfgName: "rdp custom_info_regexp=Farm$", heap: rdpCfg("", "", "", "Farm$"), cfg: rdpJSON("", "", "", "Farm$"),
 		cases: []msgCase{
 			{"matching custom info", rdpCR(rdpHdr{}, cat(rdpCustom, rdpNeg)), "yes"},
 			{"another custom info", rdpCR(rdpHdr{}, cat([]byte("tsv://MS Terminal Services Plugin.1.Other\r\n"), rdpNeg)), "no"},
@@ -1105,7 +1199,7 @@ var msgMatchers = []msgMatcher{
 		source: "custom_info_regexp filter",
 	},
 	{
-		fn: "modules/l4winbox.(*MatchWinbox).Match", cfgName: "winbox any mode", heap: winboxCfg(true, true, "", ""),
+		fn: "modules/l4winbox.(*MatchWinbox).Match", cfgName: "winbox any mode", heap: winboxCfg(true, true, "", ""), cfg: winboxJSON(nil, "", ""),
 		cases: []msgCase{
 			{"auth of admin", winboxMsg("admin", 32, 1, 6, 0), "yes"},
 			{"auth of admin, parity 0", winboxMsg("admin", 32, 0, 6, 0), "yes"},
@@ -1138,7 +1232,7 @@ var msgMatchers = []msgMatcher{
 		source: "Winbox (MikroTik) login: one chunk [length, type 0x06] holding user name, 0x00, 32 public key bytes, parity 0/1; the user name matches ^[0-9A-Za-z](?:[-#.0-9@A-Z_a-z]+[0-9A-Za-z])?$ after removing the RoMON suffix '+r'",
 	},
 	{
-		fn: "modules/l4winbox.(*MatchWinbox).Match", cfgName: "winbox standard only", heap: winboxCfg(true, false, "", ""),
+		fn: "modules/l4winbox.(*MatchWinbox).Match", cfgName: "winbox standard only", heap: winboxCfg(true, false, "", ""), cfg: winboxJSON([]string{"standard"}, "", ""),
 		cases: []msgCase{
 			{"auth of admin", winboxMsg("admin", 32, 1, 6, 0), "yes"},
 			{"RoMON auth", winboxMsg("admin+r", 32, 1, 6, 0), "no"},
@@ -1146,7 +1240,7 @@ var msgMatchers = []msgMatcher{
 		source: "modes filter: standard only",
 	},
 	{
-		fn: "modules/l4winbox.(*MatchWinbox).Match", cfgName: "winbox romon only", heap: winboxCfg(false, true, "", ""),
+		fn: "modules/l4winbox.(*MatchWinbox).Match", cfgName: "winbox romon only", heap: winboxCfg(false, true, "", ""), cfg: winboxJSON([]string{"romon"}, "", ""),
 		cases: []msgCase{
 			{"auth of admin", winboxMsg("admin", 32, 1, 6, 0), "no"},
 			{"RoMON auth", winboxMsg("admin+r", 32, 1, 6, 0), "yes"},
@@ -1154,7 +1248,7 @@ var msgMatchers = []msgMatcher{
 		source: "modes filter: romon only",
 	},
 	{
-		fn: "modules/l4winbox.(*MatchWinbox).Match", cfgName: "winbox username=admin", heap: winboxCfg(true, true, "admin", "^ro"),
+		fn: "modules/l4winbox.(*MatchWinbox).Match", cfgName: "winbox username=admin", heap: winboxCfg(true, true, "admin", "^ro"), cfg: winboxJSON(nil, "admin", "^ro"),
 		cases: []msgCase{
 			{"auth of admin", winboxMsg("admin", 32, 1, 6, 0), "yes"},
 			{"RoMON auth of admin", winboxMsg("admin+r", 32, 1, 6, 0), "yes"},
@@ -1164,7 +1258,7 @@ var msgMatchers = []msgMatcher{
 		source: "username filter: the name without the RoMON suffix equals the configured one",
 	},
 	{
-		fn: "modules/l4winbox.(*MatchWinbox).Match", cfgName: "winbox username=a", heap: winboxCfg(true, true, "a", ""),
+		fn: "modules/l4winbox.(*MatchWinbox).Match", cfgName: "winbox username=a", heap: winboxCfg(true, true, "a", ""), cfg: winboxJSON(nil, "a", ""),
 		cases: []msgCase{
 			{"auth of a", winboxMsg("a", 32, 1, 6, 0), "yes"},
 			{"auth of b", winboxMsg("b", 32, 1, 6, 0), "no"},
@@ -1172,7 +1266,7 @@ var msgMatchers = []msgMatcher{
 		source: "username filter with a one-letter name",
 	},
 	{
-		fn: "modules/l4winbox.(*MatchWinbox).Match", cfgName: "winbox username_regexp=x", heap: winboxCfg(true, true, "", "x"),
+		fn: "modules/l4winbox.(*MatchWinbox).Match", cfgName: "winbox username_regexp=x", heap: winboxCfg(true, true, "", "x"), cfg: winboxJSON(nil, "", "x"),
 		cases: []msgCase{
 			{"auth of admin", winboxMsg("admin", 32, 1, 6, 0), "no"},
 			{"auth of max", winboxMsg("max", 32, 1, 6, 0), "yes"},
@@ -1180,7 +1274,7 @@ var msgMatchers = []msgMatcher{
 		source: "username_regexp filter with a one-letter expression",
 	},
 	{
-		fn: "modules/l4winbox.(*MatchWinbox).Match", cfgName: "winbox username_regexp=^adm", heap: winboxCfg(true, true, "", "^adm"),
+		fn: "modules/l4winbox.(*MatchWinbox).Match", cfgName: "winbox username_regexp=^adm", heap: winboxCfg(true, true, "", "^adm"), cfg: winboxJSON(nil, "", "^adm"),
 		cases: []msgCase{
 			{"auth of admin", winboxMsg("admin", 32, 1, 6, 0), "yes"},
 			{"auth of root", winboxMsg("root", 32, 1, 6, 0), "no"},
@@ -1272,6 +1366,7 @@ var msgMatchers = []msgMatcher{
 	{
 		fn: "modules/l4socks.(*Socks5Matcher).Match", cfgName: "socks5 default methods",
 		heap: func(h map[string]SV) { h["m.AuthMethods"] = u16SliceSV(h, "authm", []uint16{0, 1, 2}) },
+		cfg:  func(h map[string]SV) {},
 		cases: []msgCase{
 			{"no-auth offer", []byte{5, 1, 0}, "yes"},
 			{"three known methods", []byte{5, 3, 0, 1, 2}, "yes"},
@@ -1287,12 +1382,27 @@ var msgMatchers = []msgMatcher{
 	{
 		fn: "modules/l4socks.(*Socks5Matcher).Match", cfgName: "socks5 methods=[2]",
 		heap: func(h map[string]SV) { h["m.AuthMethods"] = u16SliceSV(h, "authm", []uint16{2}) },
+		cfg:  func(h map[string]SV) { h["m.AuthMethods"] = u16SliceSV(h, "cfgauthm", []uint16{2}) },
 		cases: []msgCase{
 			{"user/password only", []byte{5, 1, 2}, "yes"},
 			{"no-auth offer", []byte{5, 1, 0}, "no"},
 			{"both", []byte{5, 2, 2, 0}, "no"},
 		},
 		source: "RFC 1928 3 with auth_methods [2]",
+	},
+	{
+		fn: "modules/l4socks.(*Socks5Matcher).Match", cfgName: "socks5 methods=[0 254 255]",
+		heap: func(h map[string]SV) { h["m.AuthMethods"] = u16SliceSV(h, "authm", []uint16{0, 254, 255}) },
+		cfg:  func(h map[string]SV) { h["m.AuthMethods"] = u16SliceSV(h, "cfgauthm", []uint16{0, 254, 255}) },
+		cases: []msgCase{
+			{"method 255 only", []byte{5, 1, 0xff}, "yes"},
+			{"methods 0 and 255", []byte{5, 2, 0, 0xff}, "yes"},
+			{"method 254", []byte{5, 1, 0xfe}, "yes"},
+			{"method 253", []byte{5, 1, 0xfd}, "no"},
+			{"method 1", []byte{5, 1, 1}, "no"},
+			{"all three and one more", []byte{5, 4, 0, 0xfe, 0xff, 2}, "no"},
+		},
+		source: "RFC 1928 3 with auth_methods [0 254 255]: the method octet ranges over 0..255",
 	},
 	{
 		fn: "modules/l4socks.(*Socks4Matcher).Match", cfgName: "socks4 default",
@@ -1413,4 +1523,109 @@ func varInitStrings(c *Ctx, pkgShort, name string) ([]string, bool) {
 		out = append(out, constant.StringVal(tv.Value))
 	}
 	return out, true
+}
+
+// provisionedState evaluates the matcher's Provision on the configuration of a table (exported fields as written,
+// everything else zero) and returns the state it leaves - what Match then runs in. nil when the table gives no
+// configuration or Provision does not evaluate to exactly one successful end state (the table's hand-written state
+// is used instead, and the obligation text says so).
+var provMemo = map[string]map[string]SV{}
+var provNote = map[string]string{}
+
+func provisionedState(c *Ctx, mm msgMatcher) map[string]SV {
+	if mm.cfg == nil {
+		return nil
+	}
+	key := mm.fn + "|" + mm.cfgName
+	if st, ok := provMemo[key]; ok {
+		return st
+	}
+	provMemo[key] = nil
+	fn := c.Fn(mm.fn)
+	if fn == nil || fn.Signature.Recv() == nil {
+		return nil
+	}
+	prov := c.Prog.LookupMethod(fn.Signature.Recv().Type(), nil, "Provision")
+	if prov == nil || len(prov.Blocks) == 0 {
+		provNote[key] = "no Provision method"
+		return nil
+	}
+	base := msgScenario(c, msgMatcher{fn: fname(prov)}, msgCase{})
+	inner := base.Call
+	sc := &Scenario{Name: "provision " + mm.cfgName, MaxVisit: 40, MaxPaths: 400, ConcreteCopy: true, Inline: base.Inline, FreshBase: 500000,
+		Params: map[string]SV{"recv": symRef("m", false), "p0": symOpaque("ctx")},
+		Heap:   map[string]SV{},
+	}
+	for k, v := range base.Heap {
+		if strings.HasPrefix(k, "global:") || strings.HasPrefix(k, "regexp:") {
+			sc.Heap[k] = v
+		}
+	}
+	zeroFields(sc.Heap, "m", fn.Signature.Recv().Type())
+	msgCtx = c
+	mm.cfg(sc.Heap)
+	sc.Call = func(callee string, args []SV, ev *symEval, st *symState) (SV, bool) {
+		switch {
+		case strings.HasSuffix(callee, "caddy/v2.NewReplacer"):
+			return symRef("repl", false), true
+		case (callee == "regexp.Compile" || callee == "regexp.MustCompile") && len(args) == 1 && args[0].K == "str" && args[0].Known:
+			re := symRef(ev.fresh("regexp"), false)
+			if _, err := regexp.Compile(args[0].S); err != nil {
+				if callee == "regexp.MustCompile" {
+					return SV{}, false
+				}
+				return symTuple(symNil(), SV{K: "ref", Known: true, Desc: "errRegexp"}), true
+			}
+			st.heap["regexp:"+re.Desc] = symStr(args[0].S)
+			if callee == "regexp.MustCompile" {
+				return re, true
+			}
+			return symTuple(re, symNil()), true
+		case callee == "strings.ToLower" && len(args) == 1 && args[0].K == "str" && args[0].Known:
+			return symStr(strings.ToLower(args[0].S)), true
+		case callee == "strings.ToUpper" && len(args) == 1 && args[0].K == "str" && args[0].Known:
+			return symStr(strings.ToUpper(args[0].S)), true
+		case strings.HasSuffix(callee, ".Logger"):
+			return symRef("logger", false), true
+		}
+		return inner(callee, args, ev, st)
+	}
+	paths, err := evalPaths(prov, sc)
+	if err != nil {
+		provNote[key] = "Provision undecided: " + err.Error()
+		return nil
+	}
+	var ok []Path
+	for _, p := range paths {
+		if p.Outcome == "return" && len(p.Ret) == 1 && p.Ret[0].Known && p.Ret[0].Nil {
+			ok = append(ok, p)
+		} else if !(p.Outcome == "return" && len(p.Ret) == 1 && p.Ret[0].Known) {
+			provNote[key] = "Provision undecided on a path (" + p.Outcome + ")"
+			return nil
+		}
+	}
+	if len(ok) != 1 {
+		provNote[key] = fmt.Sprintf("Provision ends in %d successful states", len(ok))
+		return nil
+	}
+	st := map[string]SV{}
+	for k, v := range ok[0].Heap {
+		if k != "msg.pos" {
+			st[k] = v
+		}
+	}
+	provMemo[key] = st
+	provNote[key] = "state left by Provision"
+	if os.Getenv("L4DEBUG") == "prov" {
+		var ks []string
+		for k := range ok[0].Heap {
+			ks = append(ks, k)
+		}
+		sort.Strings(ks)
+		for _, k := range ks {
+			v := ok[0].Heap[k]
+			fmt.Printf("DBG prov %s: %s = %s %s known=%v n=%d\n", key, k, v.K, v.Desc, v.Known, v.N)
+		}
+	}
+	return st
 }
